@@ -46,12 +46,13 @@ func init() {
 const failAtom = "§nomatch§"
 
 type gen struct {
-	rng   *rand.Rand
-	nname int
-	bound map[string]bool // names bound on the current success path
-	pool  []string        // names defined inside decoys (candidates for reuse)
-	depth int
-	canon map[string]string // name -> canonical text of the subtree it is bound to
+	rng      *rand.Rand
+	nname    int
+	bound    map[string]bool // names bound on the current success path
+	pool     []string        // names defined inside decoys (candidates for reuse)
+	depth    int
+	canon    map[string]string // name -> canonical text of the subtree it is bound to
+	nilNames []string          // names bound to an absent (nil) optional child
 	// tuning
 	pAny, pBind, pOr, pNot float64
 	stats                  map[string]int
@@ -182,8 +183,26 @@ func (g *gen) decorate(n *pnode, lvl int) *pnode {
 			}
 		}
 	}
+	// a name that was bound to an absent optional child (nil) is sometimes
+	// recalled at a later position: it must then only match another absent child
+	if len(g.nilNames) > 0 && g.rng.Float64() < 0.05 {
+		name := g.nilNames[g.rng.IntN(len(g.nilNames))]
+		if g.bound[name] {
+			g.stats["recall-of-nil-bound-name"]++
+			return &pnode{kind: "bind", name: name}
+		}
+	}
 	switch n.kind {
 	case "str", "nil", "any":
+		if n.kind == "nil" && r < 0.3 && !g.full() {
+			// bind a name to the absent child
+			name := g.fresh()
+			g.bound[name] = true
+			delete(g.canon, name)
+			g.nilNames = append(g.nilNames, name)
+			g.stats["bind-to-absent-child"]++
+			return &pnode{kind: "bind", name: name}
+		}
 		if n.kind == "str" && r < 0.08 {
 			// bind an atom; only expressible in the (Binding ...) spelling, so
 			// it is kept spelling-neutral by always using that form
